@@ -152,8 +152,19 @@ class Runner:
                         ck.distinct(tuple(c))
                 self.tally(cl)
             elif len(ck.violations) < 6:
-                nfail += ck.compare_cases(self.hcmd(), self.dcmd, ch, label=label, nontrivial=nontrivial,
-                                          max_failures=2)
+                before = len(ck.violations) + len(ck.known_hits)
+                n1 = ck.compare_cases(self.hcmd(), self.dcmd, ch, label=label, nontrivial=nontrivial,
+                                      max_failures=2)
+                nfail += n1
+                if n1 == 0 and len(ck.violations) + len(ck.known_hits) == before:
+                    # the chunk differed once and agrees on the re-run: non-deterministic behaviour of
+                    # the implementation (or of the harness) -- keep the first output and say so
+                    d = ck.first_diff(cl, [])
+                    ck.cov["unreproducible_chunks"] = ck.cov.get("unreproducible_chunks", 0) + 1
+                    ck.report("int", {"label": label + ":unreproducible", "ops": [],
+                                      "first_run_impl_tail": cl[-6:]},
+                              what="a chunk of cases differed from the model once and agreed when re-run")
+                    nfail += 1
             else:
                 nfail += 1
                 ck.count(len(ch))
